@@ -635,6 +635,10 @@ func c19ForgedTwin(c *Ctx, idx int) {
 		mk("self-signed-with-ca-name", c19LeafSpec{dnsNames: []string{host}, selfSubj: &rootSubj, selfCA: true}),
 		mk("other-ca-wrong-name", c19LeafSpec{dnsNames: []string{"decoy.invalid"}, signer: pki.otherSame}),
 		mk("unrelated-ca", c19LeafSpec{dnsNames: []string{host}, signer: pki.other}),
+		// the impostor proves possession of its own key only; the genuine certificate (public) rides along in the list
+		mk("self-signed+genuine-certificate-appended", c19LeafSpec{dnsNames: []string{host}}, gder),
+		mk("unrelated-ca+genuine-certificate-appended", c19LeafSpec{dnsNames: []string{host}, signer: pki.other}, gder),
+		mk("unrelated-ca+its-ca+genuine-certificate-appended", c19LeafSpec{dnsNames: []string{host}, signer: pki.other}, pki.other.der, gder),
 	}
 	dial := func(ep proxycore.Endpoint, ver uint16, chain tls.Certificate) (bool, error, []*c19ConnObs, bool) {
 		sc := &c19ServerCase{version: ver, chain: chain}
